@@ -1,4 +1,5 @@
 import LoraVerif.Props.TieA.Basic
+import LoraVerif.Props.TieA.Rx1Offset
 import LoraVerif.Gen.MacStatic
 /-!
 # C10, tie A: RX2 defaults, RX1 data-rate-offset limits, receive delays, initial configuration
@@ -18,35 +19,6 @@ theorem tieA_rx2Frequency (r : RegionId) :
     (rx2Frequency r : Int) = Gen.RegionStatic.DEFAULT_RX2_FREQ (toGen r) ∧
     (rx2Frequency r : Int) = Gen.RegionStatic.get_rx2_frequency (toGen r) := by
   cases r <;> exact ⟨rfl, rfl⟩
-
-/-- RX1DROffset limit: the region type's `MAX_RX1_DR_OFFSET` -/
-theorem tieA_maxRx1DrOffset (r : RegionId) :
-    (maxRx1DrOffset r : Int) = Gen.RegionStatic.MAX_RX1_DR_OFFSET (toGen r) := by
-  cases r <;> rfl
-
-private theorem validate_aux (v k : Nat) :
-    Option.map Int.ofNat (if v ≤ k then some v else none) = if (v : Int) ≤ (k : Int) then some (v : Int) else none := by
-  by_cases h : v ≤ k
-  · have h' : (v : Int) ≤ k := by omega
-    simp [h, h']
-  · have h' : ¬ (v : Int) ≤ k := by omega
-    simp [h, h']
-
-/-- `RegionHandler::rx1_dr_offset_validate` (`value <= MAX_RX1_DR_OFFSET`) for every region and value -/
-theorem tieA_rx1DrOffsetValidate (r : RegionId) (v : Nat) :
-    (rx1DrOffsetValidate r v).map Int.ofNat = Gen.RegionStatic.rx1_dr_offset_validate (toGen r) (v : Int) := by
-  have h := tieA_maxRx1DrOffset r
-  cases r <;>
-    simp only [toGen, maxRx1DrOffset, Gen.RegionStatic.MAX_RX1_DR_OFFSET] at h <;>
-    simp only [rx1DrOffsetValidate, maxRx1DrOffset, toGen, Gen.RegionStatic.rx1_dr_offset_validate,
-      Gen.RegionStatic.AS923_1.rx1_dr_offset_validate, Gen.RegionStatic.AS923_2.rx1_dr_offset_validate,
-      Gen.RegionStatic.AS923_3.rx1_dr_offset_validate, Gen.RegionStatic.AS923_4.rx1_dr_offset_validate,
-      Gen.RegionStatic.AU915.rx1_dr_offset_validate, Gen.RegionStatic.EU868.rx1_dr_offset_validate,
-      Gen.RegionStatic.EU433.rx1_dr_offset_validate, Gen.RegionStatic.IN865.rx1_dr_offset_validate,
-      Gen.RegionStatic.US915.rx1_dr_offset_validate, ← h, decide_eq_true_eq] <;>
-    exact validate_aux v _
-
-example : rx1DrOffsetValidate .US915 3 = some 3 ∧ rx1DrOffsetValidate .US915 4 = none := by decide
 
 /-- the generated `Frame` / `Window` a (join?, second window?) pair of the model stands for -/
 def frameOf (join : Bool) : Gen.MacStatic.Frame := if join then .Join else .Data
@@ -97,7 +69,6 @@ theorem tieA_initConfiguration (r : RegionId) (maxPower : Nat) (gain : Int) :
 example : macRxDelay (MacState.init (RegionState.init .EU868) 14 0) false true = 2000 := by decide
 
 #print axioms tieA_rx2Frequency
-#print axioms tieA_rx1DrOffsetValidate
 #print axioms tieA_rxDelay
 #print axioms tieA_initConfiguration
 end C10
